@@ -40,7 +40,7 @@ CHECKS = {
     "C08": ("model_checking",
             "TLA+ specs ErrChain.tla (constructor nestings, Cause/text/nil rules) and FramedIo.tla (framed stream over a transport that ends or fails at any byte; Complete(n) oracle) checked by TLC; TLC-enumerated nestings and sessions replayed with every cut offset and every read/write call fault against errors, rtmp (incl. handshake) and flv",
             "TLC checks the framed-stream model for every cut / read-fault offset of a small stream (returned items = exactly the completely transferred ones, in order, then the transport's error class; the 'partial item returned' deviation violates it); every constructor nesting to depth 4/6 and every generated RTMP session, FLV file and the handshake is replayed against the real code at EVERY cut offset under two segmentations and with an injected sentinel at every read and write call index, checking root-cause identity through errors.Cause, exact item counts and that nothing is returned together with an error",
-            "trusts TLC, the in-memory transport's fault injection and observed item end offsets (the spec's predicted sizes are info only); EOF vs UnexpectedEOF not judged; streams above 4 kB (150 kB thorough) use boundary+stride offsets", "5/C08"),
+            "trusts TLC, the in-memory transport's fault injection and observed item end offsets (the spec's predicted sizes are info only); EOF vs UnexpectedEOF not judged; quick: streams above 4 kB use boundary+stride offsets", "5/C08"),
     "C09": ("model_checking",
             "TLA+ spec FlvFile.tla: mux/transport/demux state machine with byte-level reference decoder, TLC invariants and two named deviations; TLC-generated files and seeded walks replayed into the flv muxer/demuxer, layout from the spec as oracle",
             "TLC explores every interleaving of muxer calls, segment deliveries and demuxer calls for all flag combinations and small tag lists (Layout, RefDec, Prefix, Final, Framing, Monotone); the boundary matrix (sizes to 2^24-1, timestamps around 2^24/2^32-1) is enumerated and each file is replayed: library bytes must equal the specification's byte for byte, and the demuxer must return the same tags from library-written and spec-written bytes under whole/1-byte/random segmentation",
@@ -151,7 +151,8 @@ ADDENDA4 = {
             "; the encoding holds whichever legal way the objects of a value came to be", ""),
     "C06": ("; origin of objects as in C05", "; the specification's encoding holds whichever legal way the objects of a value came to be", ""),
     "C08": ("; one-shot transport faults (call k fails, later calls work; invariant ErrorSurfaces, deviation fault-swallowed-at-boundary) and constructor chains of depth 33 to 1000",
-            "; a transport failure at any single read or write call surfaces in the call during which it happened also when the transport works again afterwards; Cause reaches the root through chains of a thousand layers", ""),
+            "; a transport failure at any single read or write call surfaces in the call during which it happened also when the transport works again afterwards (whole, random, item-aligned and 1-byte read segmentation); Cause reaches the root through runs of up to 1000 repeated constructors (total depth 2100 in thorough)",
+            "; the fault returns (0, err) without data; the thorough tier replays every cut offset for streams up to 20 kB plus a seeded 1/24 of the larger ones, the other large streams are sampled (item boundaries +-3, first 24 bytes of each item, 4 kB multiples +-1, stride 61)"),
     "C09": ("; the caller's memory holding all bodies adjacently (arena, invariant InputsUntouched, deviation mux-append-in-place) and end of stream delivered with the last bytes (DeliverFinal, invariant NoLoss, deviation demux-err-before-n)",
             "; the muxer only reads its inputs (bodies are adjacent windows of one buffer, compared with their snapshot after every WriteTag); every demux replay also with io.EOF delivered together with the last bytes", ""),
     "C11": ("; payload value classes (the raw block is itself a complete ADTS frame, wrapped up to three times, sync-word prefixes, header-only) and TLC-generated long-stream shapes up to 1 MiB; deviations PassThrough, LenMod (model-checked at real scale with a 73,719-byte stream)",
